@@ -289,8 +289,7 @@ class Fn2(c2lean.Fn):
             return True
         if k == "DoStmt":
             c = skip_casts(n["inner"][1])
-            if not (c.get("kind") == "IntegerLiteral" and int(c["value"]) == 0) or \
-                    has_kind(n["inner"][0], "BreakStmt") or has_kind(n["inner"][0], "ContinueStmt"):
+            if not (c.get("kind") == "IntegerLiteral" and int(c["value"]) == 0) or loop_escape(n["inner"][0]):
                 return True
         return any(self.has_real_loop(c) for c in n.get("inner", []) or [])
 
@@ -688,8 +687,7 @@ class Fn2(c2lean.Fn):
             return self.block(list(inner) + ([("pop", saved)] if saved and rest else []) + rest, env, ctx)
         if k == "NullStmt":
             return self.block(rest, env, ctx)
-        if k == "DoStmt" and const_int(self.expr_text_safe(inner[1])) == 0 and \
-                not has_kind(inner[0], "BreakStmt") and not has_kind(inner[0], "ContinueStmt"):
+        if k == "DoStmt" and const_int(self.expr_text_safe(inner[1])) == 0 and not loop_escape(inner[0]):
             return self.block([inner[0]] + rest, env, ctx)          # `do { … } while (0)`: the body, once
         if k in LOOPS:
             return self.loop(s, rest, env, ctx)
@@ -1395,7 +1393,7 @@ class Fn2(c2lean.Fn):
         opat = "(" + ", ".join(outs_names) + ")" if len(outs_names) > 1 else outs_names[0]
         init_t = "(" + ", ".join(inits) + ")" if len(inits) > 1 else paren(inits[0])
         infinite = (k == "WhileStmt" and cond.get("kind") and const_int(self.expr_text_safe(cond)) not in (None, 0)
-                    and not has_kind(body, "BreakStmt"))
+                    and not loop_escape(body, ("BreakStmt",)))
         if infinite:
             after = ctx.nofuel() + "   -- unreachable: `while (1)` without break leaves only by return"
         else:
@@ -1542,6 +1540,20 @@ def ctx_ret(fn, env, ctx, retv):
     return ctx.ret(fn.ret_tuple(env, retv))
 
 
+def loop_escape(n, kinds=("BreakStmt", "ContinueStmt")):
+    """a break/continue that belongs to the enclosing loop (not to an inner switch / loop)"""
+    if not isinstance(n, dict):
+        return False
+    k = n.get("kind")
+    if k in kinds:
+        return True
+    if k in LOOPS:
+        return False
+    if k == "SwitchStmt":
+        return loop_escape({"inner": n.get("inner", [])[-1:]}, ("ContinueStmt",)) if "ContinueStmt" in kinds else False
+    return any(loop_escape(c, kinds) for c in n.get("inner", []) or [])
+
+
 def skip_casts(n):
     while n.get("kind") in ("ParenExpr", "ImplicitCastExpr", "CStyleCastExpr"):
         n = n["inner"][0]
@@ -1641,6 +1653,15 @@ TARGETS2 = {
         ("varintExternal.c", "varintExternalAdd_", "extAdd"),
         ("varintExternal.c", "varintExternalAddNoGrow", "extAddNoGrow"),
         ("varintExternal.c", "varintExternalAddGrow", "extAddGrow"),
+    ],
+    "CSplit": [
+        ("import", "CExternal", "varintExternal.c:varintExternalLoadFromEncodingLittleEndian_:extLoadLE,"
+                                "varintExternal.c:varintExternalPutFixedWidth:extPutFixedWidth,"
+                                "varintExternal.c:varintExternalGet:extGet"),
+        ("harness/vw_split.c", "vw_splitLength", "splitLength"),
+        ("harness/vw_split.c", "vw_splitPut", "splitPut"),
+        ("harness/vw_split.c", "vw_splitGet", "splitGet"),
+        ("harness/vw_split.c", "vw_splitGetLen", "splitGetLen"),
     ],
     "CAdaptive": [
         ("varintAdaptive.c", "varintAdaptiveCheckSorted", "adaptiveCheckSorted"),
